@@ -267,6 +267,7 @@ func c30Worker(args []string) {
 }
 
 func c30(r *engine.Run) {
+	r.RaceWorkload = "text" // supplement: free-running race-detector pass over the same API (can only add findings)
 	outcomes := engine.NewCounter()
 	nontrivial := engine.NewSet()
 	var evals int64
